@@ -81,7 +81,7 @@ func seedDocuments(g *gen.G, tier string) map[string][]byte {
 func runC04(seed int64, n int, dir string, tier string) *Report {
 	g := gen.New(seed)
 	rep := NewReport("C04", seed)
-	rep.Rule = "every single schema fault (null, absent, wrong type x4, empty, oversized, duplicated element, deep nesting, duplicated member) at up to n JSON paths of each seed document (the repository's real SPDX and CycloneDX SBOMs under 80 kB and writer output of generated documents), parsed with auto-detection and with the format stated; plus random byte strings and truncations; outcomes: document / error / panic / hang / both / neither; non-trivial = mutant that still parses to a document; distinct by hash of (path, fault)"
+	rep.Rule = "every single schema fault (null, absent, wrong type x4, empty, oversized, duplicated element, deep nesting, duplicated member) at up to n JSON paths of each seed document, and double faults (a second fault on a sample of the single-fault mutants: 6 x 6 paths per document, 40 x 14 in the thorough tier) (the repository's real SPDX and CycloneDX SBOMs under 80 kB and writer output of generated documents), parsed with auto-detection and with the format stated; plus random byte strings and truncations; scaling probes (valid documents grown along one dimension: licences, components, nesting depth, hashes and references, reference-less components, SPDX packages and relationships; parsed size and time against the cube of the input growth); outcomes: document / error / panic / hang / both / neither; non-trivial = mutant that still parses to a document; distinct by hash of (path, fault)"
 	cf, xs, xc := newXlateCases()
 	seamBudget, seamSeen := 2*n, 0
 	seeds := seedDocuments(g, tier)
@@ -143,6 +143,26 @@ func runC04(seed int64, n int, dir string, tier string) *Report {
 		for _, m := range jsonfault.DuplicateMembers(data) {
 			handle(m)
 		}
+		// double faults: a second single fault on top of a sample of the single-fault mutants
+		per, second := 6, 6
+		if tier == "thorough" {
+			per, second = 40, 14
+		}
+		var firsts []jsonfault.Mutant
+		k := 0
+		jsonfault.Each(data, n, func(m jsonfault.Mutant) bool {
+			k++
+			if len(m.Data) < 60000 && g.Chance(float64(per)/float64(10*n+1)) && len(firsts) < per {
+				firsts = append(firsts, m)
+			}
+			return true
+		})
+		for _, m1 := range firsts {
+			jsonfault.Each(m1.Data, second, func(m2 jsonfault.Mutant) bool {
+				rep.Count("double-fault")
+				return handle(jsonfault.Mutant{Path: m1.Path + " & " + m2.Path, Fault: m1.Fault + " & " + m2.Fault, Data: m2.Data})
+			})
+		}
 	}
 	// arbitrary bytes and truncations
 	for i := 0; i < n; i++ {
@@ -165,6 +185,7 @@ func runC04(seed int64, n int, dir string, tier string) *Report {
 			}
 		}
 	}
+	runScaleProbes(rep)
 	rep.Notes = append(rep.Notes, fmt.Sprintf("slowest single parse: %v", worst))
 	rep.CasesFiles = cf.Write(filepath.Join(dir, "cases_C04"))
 	rep.ShardSize = shardSize
